@@ -87,7 +87,12 @@ def drive(ctx, fam, gname, f, st, seed, vstep, real_timeout, ncalls):
         term = kinds[first_term]
         later = kinds[first_term + 1:]
         if any(k != term for k in later):
-            ctx.violation(None, f"after the first {term} (call #{first_term + 1}) later calls gave {later}", wit)
+            key = None
+            if term == "timeout" and st.get("activate_unsat_support") and all(k == "stop" for k in later):
+                # the 2-second timeout of the nested unsat check (process_new_state) escapes as the user's TimeoutError; the
+                # queue copy restored afterwards no longer holds the popped state, so the next call finds it empty
+                key = "C02:unsat-support:nested-check-timeout-escapes-then-StopIteration"
+            ctx.violation(key, f"after the first {term} (call #{first_term + 1}) later calls gave {later}", wit)
             bad = True
         if term == "stop":
             ctx.count("ended_stop")
